@@ -13,8 +13,8 @@ from engine import facts as F  # noqa: E402
 from engine import runner as R  # noqa: E402
 from engine.mir import Program  # noqa: E402
 
-EVIDENCE = os.path.join(VERIF, "evidence")
-REPLAY = os.path.join(VERIF, "replay")
+EVIDENCE = os.environ.get("VERIF_EVIDENCE_DIR") or os.path.join(VERIF, "evidence")
+REPLAY = os.environ.get("VERIF_REPLAY_DIR") or os.path.join(VERIF, "replay")
 
 SAFETY_RULES = {
     "panic-reachable", "unreachable-reached", "aligned-load", "write-to-input-buffer", "cursor-moved-backward", "start-beyond-cursor",
@@ -169,7 +169,7 @@ class Check:
                                      "note": "construct outside the modelled fragment: the check fails closed"})
                 self.obligations += 1
             for v in res.get("violations", []):
-                if pid in properties_of(v, job) and (pid_filter is None or pid_filter(v, job)):
+                if pid in properties_of(v, job) and (pid_filter is None or pid_filter(v, job, res)):
                     self.violation(violation_key(v, job), dict(v, job=job))
                     self.obligations += 1
         return self
